@@ -1,4 +1,4 @@
-import LeptosModel.Proofs.ReactiveJust
+import LeptosModel.Proofs.ReactiveReach
 /-!
 # Proofs/ReactiveConv — effects converge: at idle every read-only effect has seen current values (C02)
 -/
@@ -13,14 +13,6 @@ theorem setSignal_flag (f : Nat) (s : State) (x : Nat) (v : Int) : FlagRel s (se
     intro i
     rw [State.emit_get, State.get_upd]; split <;> exact ⟨rfl, rfl, rfl⟩
   exact h1.trans (foldl_flagRel _ (fun s y => markDirty_flag f s y) _ _)
-
-/-- the state after the store and before the notifications has the same graph and states -/
-theorem setSignal_pre (s : State) (x : Nat) (v : Int) (i : Nat) :
-    let s1 := (s.upd x fun n => { n with val := some v, ver := n.ver + 1 }).emit (.set x)
-    (s1.get i).kind = (s.get i).kind ∧ (s1.get i).st = (s.get i).st ∧ (s1.get i).subs = (s.get i).subs ∧
-    (s1.get i).alive = (s.get i).alive := by
-  simp only [State.emit_get]
-  rw [State.get_upd]; split <;> exact ⟨rfl, rfl, rfl, rfl⟩
 
 theorem setSignal_closedE {p : Prog} {s : State} (h : InvR p s) (f : Nat) (hf : s.nodes.length ≤ f)
     (x : Nat) (v : Int) :
@@ -46,7 +38,31 @@ theorem setSignal_closedE {p : Prog} {s : State} (h : InvR p s) (f : Nat) (hf : 
 /-! ## the convergence invariant -/
 
 /-- the body of effect `i` does not write -/
-def RO (p : Prog) (i : Nat) : Prop := (bodyOf p i).noWrite = true
+def RO (p : Prog) (i : Nat) : Prop :=
+  ∀ sg y, (bodyOf p i).writesSig sg = true → (bodyOf p i).readsNode y = true →
+    dependsOn p p.length y sg = false
+
+theorem writesSig_of_noWrite : ∀ (e : Expr) (sg : Nat), e.noWrite = true → e.writesSig sg = false
+  | .lit _, _, _ => rfl
+  | .rd _ _, _, _ => rfl
+  | .add a b, sg, h => by
+    simp only [Expr.noWrite, Bool.and_eq_true] at h
+    simp [Expr.writesSig, writesSig_of_noWrite a sg h.1, writesSig_of_noWrite b sg h.2]
+  | .mulc _ a, sg, h => by
+    simp only [Expr.noWrite] at h
+    simp [Expr.writesSig, writesSig_of_noWrite a sg h]
+  | .ite c t e, sg, h => by
+    simp only [Expr.noWrite, Bool.and_eq_true] at h
+    simp [Expr.writesSig, writesSig_of_noWrite c sg h.1.1, writesSig_of_noWrite t sg h.1.2,
+      writesSig_of_noWrite e sg h.2]
+  | .seq a b, sg, h => by
+    simp only [Expr.noWrite, Bool.and_eq_true] at h
+    simp [Expr.writesSig, writesSig_of_noWrite a sg h.1, writesSig_of_noWrite b sg h.2]
+  | .wr _ _, _, h => by simp [Expr.noWrite] at h
+
+theorem RO.of_noWrite {p : Prog} {i : Nat} (h : (bodyOf p i).noWrite = true) : RO p i := by
+  intro sg y hw
+  rw [writesSig_of_noWrite _ sg h] at hw; cases hw
 
 /-- obligations of a non-running effect that is not the one being polled -/
 structure EffC (p : Prog) (s : State) (i : Nat) : Prop where
@@ -209,21 +225,22 @@ theorem InvC.of_set {p : Prog} {s : State} {X : Option Nat} (hi : InvR p s) {x :
     rw [sp.kind] at hk; rw [sp.running] at hr
     exact (h.eff i hk hr hX).of_set hi hx v hf sp hk (h.base i hk hr)
 
-/-! ## generic invariant through an effect body, knowing whether the body writes -/
+/-! ## generic invariant through an effect body, knowing what the body reads and writes -/
 
 theorem evalEff_gen2 {p : Prog} {u : State → Nat → State × Bool} {f : Nat} (hu : UpdOK p u f)
-    {e : Nat} (hef : e ≤ f) (F : Nat) (hF : p.length ≤ F) (Q : State → Prop) (NW : Prop)
-    (hread : ∀ s x, InvR p s → EffLoc s e → Q s → x < e → (s.get x).kind ≠ .eff →
+    {e : Nat} (hef : e ≤ f) (F : Nat) (hF : p.length ≤ F) (Q : State → Prop) (PR PW : Nat → Prop)
+    (hread : ∀ s x, PR x → InvR p s → EffLoc s e → Q s → x < e → (s.get x).kind ≠ .eff →
       Q (((readNode u s x).1.upd e fun n =>
         { n with seen := n.seen ++ [(x, (readNode u s x).2, ((readNode u s x).1.get x).ver)] }).emit
           (.rdv e x (readNode u s x).2)))
-    (hwrite : NW → ∀ s x v0 v, InvR p s → EffLoc s e → Q s → p[x]? = some (.sig v0) →
+    (hwrite : ∀ s x v0 v, PW x → InvR p s → EffLoc s e → Q s → p[x]? = some (.sig v0) →
       Q (setSignal F s x v)) :
     ∀ (ex : Expr) (s : State), InvR p s → EffLoc s e → Q s → ex.readsBelow e = true →
-      ex.noUntracked = true → ex.readsData p = true → (ex.noWrite = false → NW) →
+      ex.noUntracked = true → ex.readsData p = true →
+      (∀ y, ex.readsNode y = true → PR y) → (∀ sg, ex.writesSig sg = true → PW sg) →
       Q (evalE (readNode u) (setSignal F) e ex s).1
-  | .lit n, s, _, _, hq, _, _, _, _ => hq
-  | .rd tracked x, s, h, hl, hq, hb, hu', hd, _ => by
+  | .lit n, s, _, _, hq, _, _, _, _, _ => hq
+  | .rd tracked x, s, h, hl, hq, hb, hu', hd, hr, _ => by
     simp only [Expr.noUntracked] at hu'
     subst hu'
     simp only [Expr.readsBelow, decide_eq_true_eq] at hb
@@ -235,44 +252,44 @@ theorem evalEff_gen2 {p : Prog} {u : State → Nat → State × Bool} {f : Nat} 
         rw [h.kind x d hpx]
         cases d <;> simp_all [kindOf]
     simp only [evalE, if_true]
-    exact hread s x h hl hq hb hkx
-  | .add a b, s, h, hl, hq, hb, hu', hd, hn => by
+    exact hread s x (hr x (by simp [Expr.readsNode])) h hl hq hb hkx
+  | .add a b, s, h, hl, hq, hb, hu', hd, hr, hw => by
     simp only [Expr.readsBelow, Expr.noUntracked, Expr.readsData, Bool.and_eq_true] at hb hu' hd
-    have hna : a.noWrite = false → NW := fun ha => hn (by simp [Expr.noWrite, ha])
-    have hnb : b.noWrite = false → NW := fun hb' => hn (by simp [Expr.noWrite, hb'])
     obtain ⟨h1, l1⟩ := evalEff_spec hu hef F hF a s h hl hb.1 hu'.1 hd.1
-    have q1 := evalEff_gen2 hu hef F hF Q NW hread hwrite a s h hl hq hb.1 hu'.1 hd.1 hna
+    have q1 := evalEff_gen2 hu hef F hF Q PR PW hread hwrite a s h hl hq hb.1 hu'.1 hd.1
+      (fun y hy => hr y (by simp [Expr.readsNode, hy])) (fun y hy => hw y (by simp [Expr.writesSig, hy]))
     simp only [evalE]
-    exact evalEff_gen2 hu hef F hF Q NW hread hwrite b _ h1 l1 q1 hb.2 hu'.2 hd.2 hnb
-  | .mulc k a, s, h, hl, hq, hb, hu', hd, hn => by
+    exact evalEff_gen2 hu hef F hF Q PR PW hread hwrite b _ h1 l1 q1 hb.2 hu'.2 hd.2
+      (fun y hy => hr y (by simp [Expr.readsNode, hy])) (fun y hy => hw y (by simp [Expr.writesSig, hy]))
+  | .mulc k a, s, h, hl, hq, hb, hu', hd, hr, hw => by
     simp only [Expr.readsBelow, Expr.noUntracked, Expr.readsData] at hb hu' hd
     simp only [evalE]
-    exact evalEff_gen2 hu hef F hF Q NW hread hwrite a s h hl hq hb hu' hd
-      (fun ha => hn (by simp [Expr.noWrite, ha]))
-  | .ite c t el, s, h, hl, hq, hb, hu', hd, hn => by
+    exact evalEff_gen2 hu hef F hF Q PR PW hread hwrite a s h hl hq hb hu' hd
+      (fun y hy => hr y (by simp [Expr.readsNode, hy])) (fun y hy => hw y (by simp [Expr.writesSig, hy]))
+  | .ite c t el, s, h, hl, hq, hb, hu', hd, hr, hw => by
     simp only [Expr.readsBelow, Expr.noUntracked, Expr.readsData, Bool.and_eq_true] at hb hu' hd
-    have hnc : c.noWrite = false → NW := fun ha => hn (by simp [Expr.noWrite, ha])
-    have hnt : t.noWrite = false → NW := fun ha => hn (by simp [Expr.noWrite, ha])
-    have hne : el.noWrite = false → NW := fun ha => hn (by simp [Expr.noWrite, ha])
     obtain ⟨h1, l1⟩ := evalEff_spec hu hef F hF c s h hl hb.1.1 hu'.1.1 hd.1.1
-    have q1 := evalEff_gen2 hu hef F hF Q NW hread hwrite c s h hl hq hb.1.1 hu'.1.1 hd.1.1 hnc
+    have q1 := evalEff_gen2 hu hef F hF Q PR PW hread hwrite c s h hl hq hb.1.1 hu'.1.1 hd.1.1
+      (fun y hy => hr y (by simp [Expr.readsNode, hy])) (fun y hy => hw y (by simp [Expr.writesSig, hy]))
     simp only [evalE]
     split
-    · exact evalEff_gen2 hu hef F hF Q NW hread hwrite t _ h1 l1 q1 hb.1.2 hu'.1.2 hd.1.2 hnt
-    · exact evalEff_gen2 hu hef F hF Q NW hread hwrite el _ h1 l1 q1 hb.2 hu'.2 hd.2 hne
-  | .seq a b, s, h, hl, hq, hb, hu', hd, hn => by
+    · exact evalEff_gen2 hu hef F hF Q PR PW hread hwrite t _ h1 l1 q1 hb.1.2 hu'.1.2 hd.1.2
+        (fun y hy => hr y (by simp [Expr.readsNode, hy])) (fun y hy => hw y (by simp [Expr.writesSig, hy]))
+    · exact evalEff_gen2 hu hef F hF Q PR PW hread hwrite el _ h1 l1 q1 hb.2 hu'.2 hd.2
+        (fun y hy => hr y (by simp [Expr.readsNode, hy])) (fun y hy => hw y (by simp [Expr.writesSig, hy]))
+  | .seq a b, s, h, hl, hq, hb, hu', hd, hr, hw => by
     simp only [Expr.readsBelow, Expr.noUntracked, Expr.readsData, Bool.and_eq_true] at hb hu' hd
-    have hna : a.noWrite = false → NW := fun ha => hn (by simp [Expr.noWrite, ha])
-    have hnb : b.noWrite = false → NW := fun hb' => hn (by simp [Expr.noWrite, hb'])
     obtain ⟨h1, l1⟩ := evalEff_spec hu hef F hF a s h hl hb.1 hu'.1 hd.1
-    have q1 := evalEff_gen2 hu hef F hF Q NW hread hwrite a s h hl hq hb.1 hu'.1 hd.1 hna
+    have q1 := evalEff_gen2 hu hef F hF Q PR PW hread hwrite a s h hl hq hb.1 hu'.1 hd.1
+      (fun y hy => hr y (by simp [Expr.readsNode, hy])) (fun y hy => hw y (by simp [Expr.writesSig, hy]))
     simp only [evalE]
-    exact evalEff_gen2 hu hef F hF Q NW hread hwrite b _ h1 l1 q1 hb.2 hu'.2 hd.2 hnb
-  | .wr x a, s, h, hl, hq, hb, hu', hd, hn => by
+    exact evalEff_gen2 hu hef F hF Q PR PW hread hwrite b _ h1 l1 q1 hb.2 hu'.2 hd.2
+      (fun y hy => hr y (by simp [Expr.readsNode, hy])) (fun y hy => hw y (by simp [Expr.writesSig, hy]))
+  | .wr x a, s, h, hl, hq, hb, hu', hd, hr, hw => by
     simp only [Expr.readsBelow, Expr.noUntracked, Expr.readsData, Bool.and_eq_true] at hb hu' hd
-    have hnw : NW := hn (by simp [Expr.noWrite])
     obtain ⟨h1, l1⟩ := evalEff_spec hu hef F hF a s h hl hb hu' hd.2
-    have q1 := evalEff_gen2 hu hef F hF Q NW hread hwrite a s h hl hq hb hu' hd.2 (fun _ => hnw)
+    have q1 := evalEff_gen2 hu hef F hF Q PR PW hread hwrite a s h hl hq hb hu' hd.2
+      (fun y hy => hr y (by simp [Expr.readsNode, hy])) (fun y hy => hw y (by simp [Expr.writesSig, hy]))
     simp only [evalE]
     generalize evalE (readNode u) (setSignal F) e a s = r at h1 l1 q1
     obtain ⟨s1, v⟩ := r
@@ -283,7 +300,7 @@ theorem evalEff_gen2 {p : Prog} {u : State → Nat → State × Bool} {f : Nat} 
       cases d with
       | memo _ => rw [hpx] at hd; simp at hd
       | eff _ => rw [hpx] at hd; simp at hd
-      | sig v0 => exact hwrite hnw s1 x v0 v h1 l1 q1 hpx
+      | sig v0 => exact hwrite s1 x v0 v (hw x (by simp [Expr.writesSig])) h1 l1 q1 hpx
 
 /-! ## the running effect -/
 
@@ -301,6 +318,16 @@ structure RunLocC (p : Prog) (s : State) (e : Nat) : Prop where
 structure QC (p : Prog) (s : State) (e : Nat) : Prop where
   others : InvC p s (some e)
   self : RunLocC p s e
+  ss : SrcStatic p s
+
+theorem setSignal_sources (f : Nat) (s : State) (x : Nat) (v : Int) (i : Nat) :
+    ((setSignal f s x v).get i).sources = (s.get i).sources := by
+  unfold setSignal sigNotify
+  have hr := foldl_markRel (fun s x => markDirty f s x) (fun s x => markDirty_rel f s x)
+    ((((s.upd x fun n => { n with val := some v, ver := n.ver + 1 }).emit (.set x)).get x).subs)
+    ((s.upd x fun n => { n with val := some v, ver := n.ver + 1 }).emit (.set x))
+  rw [hr.sources, State.emit_get, State.get_upd]
+  split <;> rfl
 
 /-- `InvC` only looks at the non-running effect nodes and at `val`/`st`/`running`/`kind` of the others -/
 theorem InvC.congr {p : Prog} {s s' : State} {X : Option Nat} (e : Nat)
@@ -335,7 +362,8 @@ theorem InvC.congr {p : Prog} {s s' : State} {X : Option Nat} (e : Nat)
       exact c.srcClean hcf y hy hky
 
 theorem hreadC {p : Prog} {u : State → Nat → State × Bool} {f : Nat} (hu : UpdOK p u f)
-    {e : Nat} (hef : e ≤ f) (s : State) (x : Nat) (h : InvR p s) (hl : EffLoc s e) (hq : QC p s e)
+    {e : Nat} (hef : e ≤ f) (s : State) (x : Nat) (hrx : (bodyOf p e).readsNode x = true)
+    (h : InvR p s) (hl : EffLoc s e) (hq : QC p s e)
     (hx : x < e) (hkx : (s.get x).kind ≠ .eff) :
     QC p (((readNode u s x).1.upd e fun n =>
         { n with seen := n.seen ++ [(x, (readNode u s x).2, ((readNode u s x).1.get x).ver)] }).emit
@@ -362,7 +390,21 @@ theorem hreadC {p : Prog} {u : State → Nat → State × Bool} {f : Nat} (hu : 
   have cfe := Node.core_fields (up.frame.effCore e he1)
   have cle := Node.core_life (up.frame.effCore e he1)
   have fl := up.frame.flags
-  refine ⟨?_, ?_⟩
+  have hss3 : SrcStatic p s3 := by
+    have hs1 : SrcStatic p s1 := by
+      intro w y hy
+      by_cases hw : w = e
+      · subst hw
+        rw [t.sources_m, List.mem_append, List.mem_singleton] at hy
+        rcases hy with hy | rfl
+        · exact hq.ss w y hy
+        · exact hrx
+      · rw [t.sources hxe w hw] at hy; exact hq.ss w y hy
+    exact (up.ss hs1).mono (fun w y hy => by
+      by_cases hw : w = e
+      · subst hw; rw [g3e] at hy; exact hy
+      · rw [g3o w hw] at hy; exact hy)
+  refine ⟨?_, ?_, hss3⟩
   · -- the other effects
     have c1 : InvC p s1 (some e) := by
       refine InvC.congr e (by rw [t.running]; exact hl.running) ?_
@@ -430,8 +472,8 @@ theorem hreadC {p : Prog} {u : State → Nat → State × Bool} {f : Nat} (hu : 
       show (s2.get e).runs ≠ 0
       rw [cfe.2.2.2.2.2.2.2.2, t.gm]; exact hq.self.ran
 
-theorem hwriteC {p : Prog} {e : Nat} (F : Nat) (hF : p.length ≤ F) (hnw : ¬ RO p e)
-    (s : State) (x : Nat) (v0 v : Int)
+theorem hwriteC {p : Prog} {e : Nat} (F : Nat) (hF : p.length ≤ F)
+    (s : State) (x : Nat) (v0 v : Int) (hW : (bodyOf p e).writesSig x = true)
     (h : InvR p s) (hl : EffLoc s e) (hq : QC p s e) (hx : p[x]? = some (.sig v0)) :
     QC p (setSignal F s x v) e := by
   have hf : s.nodes.length ≤ F := by rw [h.len]; exact hF
@@ -440,15 +482,45 @@ theorem hwriteC {p : Prog} {e : Nat} (F : Nat) (hF : p.length ≤ F) (hnw : ¬ R
     intro hc; subst hc
     have := h.kind e _ hx
     rw [hl.kind] at this; cases this
-  refine ⟨hq.others.of_set h hx v hf sp, ?_⟩
+  refine ⟨hq.others.of_set h hx v hf sp, ?_,
+    hq.ss.mono (fun w y hy => by rw [setSignal_sources] at hy; exact hy)⟩
   have hcore := setSignal_core F s x v e hex
   have cf := Node.core_fields hcore
   have cl := Node.core_life hcore
   have fl := setSignal_flag F s x v
   obtain ⟨hnc, _⟩ := setSignal_closedE h F hf x v
+  have hxp : x < p.length := by
+    rcases Nat.lt_or_ge x p.length with h'' | h''
+    · exact h''
+    · rw [List.getElem?_eq_none h''] at hx; cases hx
   refine ⟨by rw [cl.1, cl.2.1, cl.2.2]; exact hq.self.live,
-    by rw [cf.2.2.1, cf.2.2.2.2.2.2.1]; exact hq.self.srcSeen, fun hro => absurd hro hnw, ?_, ?_, ?_,
+    by rw [cf.2.2.1, cf.2.2.2.2.2.2.1]; exact hq.self.srcSeen, ?_, ?_, ?_, ?_,
     by rw [cf.2.2.2.2.1]; exact hq.self.noFirst, by rw [cf.2.2.2.2.2.2.2.2]; exact hq.self.ran⟩
+  · -- the effect does not write upstream of anything it has read: its entries are untouched
+    intro hro z hz
+    rw [cf.2.2.2.2.2.2.1] at hz
+    have old := hq.self.seenRO hro z hz
+    have hsrc : z.1 ∈ (s.get e).sources := by rw [hq.self.srcSeen]; exact List.mem_map_of_mem hz
+    have hrz : (bodyOf p e).readsNode z.1 = true := hq.ss e z.1 hsrc
+    have hnd : dependsOn p p.length z.1 x = false := hro x z.1 hW hrz
+    have hzlt : z.1 < e := h.srcLt e z.1 hsrc
+    have hzp : z.1 < p.length := by
+      have := s.lt_of_running hl.running
+      rw [h.len] at this; omega
+    have hzk := h.srcData e z.1 hsrc
+    have hzx : z.1 ≠ x := by
+      intro hc
+      rw [hc] at hnd
+      cases hpl : p.length with
+      | zero => omega
+      | succ n => rw [hpl, dependsOn_self] at hnd; cases hnd
+    refine ⟨?_, by rw [sp.val z.1 hzx]; exact old.2⟩
+    by_cases hne : ((setSignal F s x v).get z.1).st = (s.get z.1).st
+    · rw [hne]; exact old.1
+    · exfalso
+      obtain ⟨w, hw, hr⟩ := setSignal_stReach F s x v z.1 hne
+      have := dependsOn_of_reach h hq.ss hw hr p.length hzp hzk
+      rw [this] at hnd; cases hnd
   · intro hcf z hz hkz
     rw [cf.2.2.2.2.2.2.1] at hz
     rw [sp.kind] at hkz
